@@ -24,7 +24,7 @@ cp $demo $dst/demo_${id}${suf}.py
 /venv/bin/python - "$id" "$suf" "$what" > $dst/meta.json <<'EOF'
 import json, sys
 i, suf, what = sys.argv[1:4]
-batch = {'b': 'B (second independent change for this property)', 'c': 'C (third independent change for this property)', 'd': 'D (fourth independent change for this property)', 'e': 'E (fifth independent change for this property)', 'f': 'F (sixth independent change for this property)'}.get(suf, suf)
+batch = {'b': 'B (second independent change for this property)', 'c': 'C (third independent change for this property)', 'd': 'D (fourth independent change for this property)', 'e': 'E (fifth independent change for this property)', 'f': 'F (sixth independent change for this property)', 'g': 'G (seventh independent change for this property)'}.get(suf, suf)
 print(json.dumps({
  "breaks_property": i, "batch": batch, "needs_to_manifest": what,
  "produced_by": "independent sub-agent given only the property text, the descriptions of the earlier seeded changes to avoid, and a scratch worktree of /repo (nothing from /verif)",
